@@ -323,6 +323,17 @@ func c15Run(in V) V {
 			}
 		}()
 		dw := &base.VerifDirectWriter{}
+		if hw && size%3 != 0 {
+			// the direct writer is not fresh: an earlier message with direct writes at OTHER positions
+			// went through it (Malloc, two direct pieces, Bytes); nothing of it may leak into this one
+			prev := dw.Malloc(10000)
+			dw.WriteDirect(make([]byte, 5000), len(prev)-4)
+			dw.WriteDirect(make([]byte, 4100), len(prev)-5100)
+			func() {
+				defer func() { recover() }()
+				_ = dw.Bytes()
+			}()
+		}
 		data := dw.Malloc(size)
 		for i := range data {
 			data[i] = fill
